@@ -374,7 +374,10 @@ def run_tool(cx, tool, args, cwd, timeout=120):
             oc = "signal:%d" % -p.returncode
         else:
             oc = "exit:%d" % p.returncode
-    return lines, oc, p.stderr[-600:]
+    err = p.stderr
+    if oc.startswith("asan"):
+        err = "\n".join(l for l in err.split("\n") if l.startswith("SUMMARY") or "ERROR: AddressSanitizer" in l or l.lstrip().startswith(("#0", "#1", "#2", "#3", "#4")))[:700]
+    return lines, oc, err[-600:]
 
 
 def scenario_list(rng, world, thorough):
